@@ -307,14 +307,15 @@ func TestC07_TwoUsesEnum(t *testing.T) {
 
 func TestC07_Errors(t *testing.T) {
 	c := harness.New(t, "C07", "errors",
-		"load-time error classes, each inside an otherwise valid generated page: a slot the component does not declare (named - an unrelated name, a declared name in another letter case, with a trailing blank, shortened or lengthened - and default), a slot passed twice (named and default), a missing component file (plain and '~' name); NewTemplate must fail and the message must name the component. Non-trivial: all. Distinct by hash.")
+		"load-time error classes, each inside an otherwise valid generated page: a slot the component does not declare (named - an unrelated name, a declared name in another letter case, with a trailing blank, shortened or lengthened - and default), a slot passed twice (named and default) - the offending body being text, a blank, a comment, an empty print or nothing at all -, a missing component file (plain and '~' name); NewTemplate must fail and the message must name the component. Non-trivial: all. Distinct by hash.")
 	defer c.Finish()
 	runRapid(t, c, 600, 7500, func(rt *rapid.T) {
 		env := genDataEnv().Draw(rt, "data")
 		u := &useGen{rt: rt, env: env, uses: map[string]int{}}
 		page := u.page(2)
 		files := compFiles()
-		body := []*tw.Stmt{tw.Text("x")}
+		// (the body passed under the bad name may be text, a blank, a comment or nothing at all)
+		body := rapid.SampledFrom([][]*tw.Stmt{{tw.Text("x")}, {tw.Text("x")}, nil, {tw.Text("{{-- nothing --}}")}, {tw.Text(" ")}, {tw.Print(tw.Str(""))}}).Draw(rt, "badBody")
 		kind := rapid.SampledFrom([]string{"undeclared-named-slot", "undeclared-default-slot", "duplicate-named-slot", "duplicate-default-slot", "missing-component", "missing-alias-component"}).Draw(rt, "errorKind")
 		var bad *tw.Stmt
 		mention := ""
